@@ -26,6 +26,9 @@ use edp_client::{Connection, ConnectionConfig, PidAllocator};
 use erltf::OwnedTerm;
 use erltf::types::{Atom, ExternalPid, ExternalReference};
 use std::sync::Arc;
+#[cfg(edp_verif_shuttle)]
+use shuttle::sync::atomic::{AtomicBool, AtomicU32, Ordering};
+#[cfg(not(edp_verif_shuttle))]
 use std::sync::atomic::{AtomicBool, AtomicU32, Ordering};
 use std::time::Duration;
 use tokio::sync::{Mutex, oneshot};
